@@ -1,6 +1,6 @@
 //! The families of programs each tier enumerates (simplest first).
 
-use crate::enumerate::{AK, Family, VK};
+use crate::enumerate::{AK, Family, Stage, VK};
 
 fn fam(
     name: &str,
@@ -27,7 +27,64 @@ fn fam(
         max_wide,
         wide_no_atoms,
         sym_reduce,
+        stages: vec![],
+        assert_split: None,
     }
+}
+
+/// Staged (grammar-restricted, deeper) family.
+fn staged(name: &str, stages: Vec<Stage>, assert_kinds: &[AK], c: usize, max_pub: usize, consts: &[u8]) -> Family {
+    Family {
+        name: name.into(),
+        value_kinds: vec![],
+        assert_kinds: assert_kinds.to_vec(),
+        max_value_ops: 0,
+        max_asserts: c,
+        max_pub,
+        max_priv: 0,
+        consts: consts.to_vec(),
+        max_wide: 0,
+        wide_no_atoms: true,
+        sym_reduce: true,
+        stages,
+        assert_split: None,
+    }
+}
+
+fn stage(kinds: &[VK], count: usize, from: &[u8], new_pub: bool, consts: bool) -> Stage {
+    Stage { kinds: kinds.to_vec(), count, from_stages: from.to_vec(), allow_new_pub: new_pub, allow_consts: consts }
+}
+
+/// Deeper programs in narrow grammars (5–6 value calls): sums of products (mul+add fusion
+/// chains), aliased duplicate operations (de-duplication), product/difference chains.
+pub fn staged_families(thorough: bool) -> Vec<Family> {
+    let conn = [AK::Connect, AK::AssertZero];
+    let mut v = vec![
+        // p_i = x*y over 3 inputs; then up to 2 sums over products and sums
+        staged("sum-of-products-3+2", vec![stage(&[VK::Mul], 3, &[0], true, false), stage(&[VK::Add], 2, &[1, 2], false, false)], &conn, 0, 3, &[]),
+        // two products, then three adds/subs over everything (fusion with addends from anywhere)
+        staged("products-2-then-addsub-3", vec![stage(&[VK::Mul], 2, &[0], true, true), stage(&[VK::Add, VK::Sub], 3, &[0, 1, 2], false, false)], &conn, 0, 2, &[2]),
+        // duplicate operations over aliased inputs: 3 ops from inputs, 2 connects
+        staged("dup-ops-3-conn2", vec![stage(&[VK::Add, VK::Mul], 3, &[0], true, true)], &conn, 2, 3, &[2]),
+    ];
+    {
+        // de-duplication chains (small): four ops over two inputs, inputs may be aliased, one
+        // more connect involving a computed value
+        let mut dd = staged("dedup-chain-4ops-2in", vec![stage(&[VK::Add, VK::Mul], 4, &[0], true, false)], &[AK::Connect], 2, 2, &[]);
+        dd.assert_split = Some((1, 1));
+        v.push(dd);
+    }
+    if thorough {
+        v.push(staged("sum-of-products-3+3", vec![stage(&[VK::Mul], 3, &[0], true, true), stage(&[VK::Add, VK::Sub], 3, &[0, 1, 2], false, false)], &conn, 1, 3, &[2]));
+        v.push(staged("sum-of-products-4+3", vec![stage(&[VK::Mul], 4, &[0], true, false), stage(&[VK::Add], 3, &[1, 2], false, false)], &conn, 0, 2, &[]));
+        // de-duplication chains: five ops over three inputs, any aliasing of the inputs, one
+        // more connect involving a computed value
+        let mut dd = staged("dedup-chain-5ops-3in", vec![stage(&[VK::Add, VK::Mul], 5, &[0], true, false)], &[AK::Connect], 4, 3, &[]);
+        dd.assert_split = Some((3, 1));
+        v.push(dd);
+        v.push(staged("muladd-horner-chain", vec![stage(&[VK::Mul, VK::MulAdd], 2, &[0], true, false), stage(&[VK::Add, VK::MulAdd], 2, &[0, 1, 2], false, false), stage(&[VK::Sub, VK::Mul], 1, &[1, 2, 3], false, false)], &conn, 1, 3, &[]));
+    }
+    v
 }
 
 pub const BIN: [VK; 4] = [VK::Add, VK::Sub, VK::Mul, VK::Div];
@@ -45,6 +102,7 @@ pub fn families_scaled(scale: u8) -> Vec<Family> {
     let wide = [VK::Add, VK::Mul, VK::Sub, VK::MulAdd, VK::Select, VK::Horner];
     let mut v = vec![];
     if scale == 0 {
+        v.extend(staged_families(false));
         // binary arithmetic, two value calls, one assertion of any kind
         v.push(fam("bin-k2-c1", &BIN, &ASSERTS, 2, 1, 3, 1, &[0, 1, 2], 0, true, true));
         // two connects (aliasing chains through connect): publics and one generic constant
@@ -58,16 +116,22 @@ pub fn families_scaled(scale: u8) -> Vec<Family> {
         return v;
     }
     if scale == 1 {
+        v.extend(staged_families(false));
         v.push(fam("bin-k2-c2", &BIN, &ASSERTS, 2, 2, 3, 1, &[0, 1, 2], 0, true, true));
         v.push(fam("wide1-k2-c1", &wide, &ASSERTS, 2, 1, 4, 1, &[0, 1, 2], 1, true, true));
         v.push(fam("horner-k2-c1", &[VK::Horner], &CONN, 2, 1, 5, 0, &[2], 2, true, true));
+        // three-step Horner chains (packing factors 3 and 4 schedule them differently)
+        v.push(fam("horner-k3-c0", &[VK::Horner], &CONN, 3, 0, 2, 0, &[2], 3, true, true));
         v.push(fam("bits-k2-c2", &[VK::Add, VK::Mul, VK::Sub, VK::Bits(2), VK::Bits(3)], &ASSERTS, 2, 2, 2, 1, &[1, 2], 0, true, true));
         return v;
     }
-    v.push(fam("bin-k2-c2", &BIN, &ASSERTS, 2, 2, 3, 1, &[0, 1, 2], 0, true, false));
+    v.extend(staged_families(true));
     v.push(fam("wide1-k2-c1", &wide, &ASSERTS, 2, 1, 4, 1, &[0, 1, 2], 1, true, true));
     v.push(fam("horner-k2-c1", &[VK::Horner], &CONN, 2, 1, 5, 0, &[2], 2, true, true));
+    v.push(fam("horner-k3-c0", &[VK::Horner], &CONN, 3, 0, 2, 0, &[2], 3, true, true));
+    v.push(fam("horner-k4-c0", &[VK::Horner], &CONN, 4, 0, 1, 0, &[2], 4, true, true));
     v.push(fam("bits-k2-c2", &[VK::Add, VK::Mul, VK::Sub, VK::Bits(2), VK::Bits(3)], &ASSERTS, 2, 2, 2, 1, &[1, 2], 0, true, true));
+    v.push(fam("bin-k2-c2", &BIN, &ASSERTS, 2, 2, 3, 1, &[0, 1, 2], 0, true, false));
     v.push(fam("bin-k3-c1", &BIN, &ASSERTS, 3, 1, 3, 1, &[0, 1, 2], 0, true, true));
     v.push(fam("bin-k3-conn2", &BIN, &CONN, 3, 2, 3, 0, &[2], 0, true, true));
     v.push(fam("wide2-k3-c1", &[VK::Add, VK::Mul, VK::Sub, VK::Div, VK::MulAdd, VK::Select], &ASSERTS, 3, 1, 3, 1, &[1, 2], 2, true, true));
